@@ -22,8 +22,11 @@ U32 = numpy.uint32
 META = {
     "level": "exploration",
     "rule": ("all ordered pairs of subsets of a 6-element universe (quick) / 8 (thorough), 3 kernels, under operand "
-             "presentations {own allocation, view inside a larger buffer, strided view, read-only}, on the bounds-checked "
-             "and on the ASan+UBSan build; multi-way union lists; in-situ cube walks and set updates. Non-trivial: >=1 "
+             "presentations {own allocation, view inside a larger buffer, strided view, read-only, reversed view, field of a packed "
+             "record array (byte stride 6)}, on the bounds-checked "
+             "and on the ASan+UBSan build; multi-way union lists; size-ladder lopsided pairs; several threads inside the kernels "
+             "at once; in-situ cube walks and set updates; a value in an output that occurs in no operand counts as a read "
+             "outside the operands. Non-trivial: >=1 "
              "operand empty, or one operand exhausted strictly before the other, or an operand that is a view inside a "
              "larger buffer; distinct by (variant, kernel, presentation, operand contents)"),
     "require": {"quick": ["bc:kernel_calls", "asan:kernel_calls", "asan:canary_detected", "bc:checks_on",
